@@ -110,7 +110,12 @@ static inline _Bool vf_disjoint(const void *a, size_t an, const void *b, size_t 
   return !__CPROVER_same_object(a, b) || VF_U(a) + an <= VF_U(b) || VF_U(b) + bn <= VF_U(a);
 }
 
-#define PS_OK (VF_POW2(g_ps) && g_ps >= 128 && g_ps <= (1UL << 20))
+/* case split: a job may restrict the ghost case it covers (VF_CASE); the union of a job family's cases is `1`,
+ * checked by the runner's K7 coverage lemma job */
+#ifndef VF_CASE
+#define VF_CASE 1
+#endif
+#define PS_OK (VF_POW2(g_ps) && g_ps >= 128 && g_ps <= (1UL << 20) && (VF_CASE))
 #define REQ_OK(BY_, AL_) ((BY_) <= VF_MAX_BYTES && VF_POW2(AL_) && (AL_) <= VF_MAX_ALIGN)
 
 /* ---- representation invariant, pages part, as a precondition (establishes the objects) ------------------
